@@ -1,3 +1,4 @@
+import MLPE.Proofs.Safe
 import MLPE.Props.C04
 import MLPE.Proofs.PlainSol
 
@@ -149,5 +150,26 @@ theorem C03_plain_no_failure_objects (P : Program) (d : DagRef) (val : Node → 
   rcases pinv_live (val := val) hp h hpending with hinv | ⟨o, hf⟩
   · exact hinv.noRecRes n v hr
   · exact absurd hf (hrun o)
+
+/-! ### Pipelines with switches: every body invocation, under every schedule (observation log) -/
+
+/-- **C03 (switch pipelines)**: whenever a node body is observed being invoked in any execution, every source of the
+node has a value in the dataflow semantics, the arguments are exactly those values under the declared names — for a
+switch parameter the value of the selected case — and it is the node's first and only invocation -/
+theorem C03_switch_body_arguments (P : Program) (val : Node → Option Val) (hsw : SwP P) (hsol : SolutionSw P val)
+    (s : St) (log : List Obs) (h : Exec P s log) (n inv k : Nat) (kw : Kwargs) (hb : Obs.body n inv k kw ∈ log) :
+    kw = kwFrom P val n ∧ (∀ p ∈ P.g.preds n, (val p).isSome = true) ∧ inv = 0 := by
+  have a : Att P val n k kw inv := (safe_exec hsw hsol h).2 _ hb
+  refine ⟨a.kw_eq, ?_, a.inv0⟩
+  have := a.preds
+  rw [List.all_eq_true] at this
+  exact this
+
+/-- no stored result of a switch pipeline is a failure object or a `Recurrent` marker, and each is the final value of
+its node -/
+theorem C03_switch_results_final (P : Program) (val : Node → Option Val) (hsw : SwP P) (hsol : SolutionSw P val)
+    (s : St) (h : Reach P s) (n : Node) (v : Val) (hr : s.res n = some v) :
+    val n = some v ∧ v.isRecur = false ∧ v.isExc = false :=
+  ⟨((safe_reach hsw hsol h).data.agree n v hr).1, (safe_reach hsw hsol h).data.vals n v hr⟩
 
 end MLPE.Eng
